@@ -12,6 +12,7 @@
 #include <GeographicLib/GeodesicExact.hpp>
 #include <GeographicLib/GeodesicLine.hpp>
 #include <GeographicLib/GeodesicLineExact.hpp>
+#include <GeographicLib/Ellipsoid.hpp>
 #include <algorithm>
 #include <memory>
 
@@ -74,6 +75,7 @@ int main(int argc, char** argv) {
       std::vector<Len> L;
       for (auto& ls : lspec) {
         if (!T && !ls.quick) continue;
+        if (std::fabs(std::log2(1 - E.f)) > 4.5 && (ls.arc ? std::fabs(ls.v) > 180 : std::fabs(ls.v) > 2.1)) continue;   // b/a = 1/64, 64: single-circuit lengths only (oracle cost)
         Len l; l.arc = ls.arc; l.v = ls.arc ? ls.v : ls.v * (double)E.Q;
         l.s = ls.arc ? geod_ode::arc_to_dist<ld>(E.e, lat1, azi1, l.v) : (ld)l.v;
         L.push_back(l);
@@ -209,5 +211,62 @@ int main(int argc, char** argv) {
     }
   }
   ctx.count("calls", ncalls); ctx.count("oracle_trajectories", ntraj);
+  // ================================================================= ends of the exact solver's documented range
+  // b/a in {1/100, 1/64, 1/50, 50, 64, 100}: the ODE oracle is too slow there (hours), so only the oracle-free clauses
+  // are decided: the (s12, a12) pair returned for an arc-specified length must describe the same point when fed back
+  // as a distance (and vice versa), and the exact solver, the delegating exact=true mode and the line forms must agree,
+  // all within a calibrated multiple of the GeodesicExact.hpp table row (see tol below).
+  {
+    ctx.sub("exact-range-ends");
+    ctx.bound("exact-range-ends", "b/a in {1/100,1/64,1/50,50,64,100} (Q = 10 000 km) x 13 lat1 x 13 azi1 x a12 in {1e-9,30,-60,90,-150,180} x {GeodesicExact, Geodesic(exact=true)} x {GenDirect, Line+GenPosition}: arc->distance->point and distance->arc->point closure, configurations agree");
+    const double bas[] = {0.01, 1 / 64.0, 0.02, 50, 64, 100};
+    const double arcs[] = {1e-9, 30, -60, 90, -150, 180};
+    // no AREA: at these eccentricities the area series needs thousands of terms per call
+    const unsigned MSK = GeodesicExact::LATITUDE | GeodesicExact::LONGITUDE | GeodesicExact::AZIMUTH | GeodesicExact::DISTANCE | GeodesicExact::LONG_UNROLL;
+    for (double ba : bas) {
+      double f = 1 - ba;
+      // the scale only: a such that the quarter meridian is 10 000 km (library value; the oracle quadrature does not converge
+      // in reasonable time at these eccentricities)
+      const ld Q = 1e7L; const double a = 1e7 / Ellipsoid(1.0, f).QuarterMeridian();
+      // Closure of two library calls at the ends of the documented range is not a documented figure: calibrated.  Worst
+      // observed on the unchanged tree: 47 x (2 x table row) at b/a = 1/100 (meridional lines from a pole, 36 um), 2.3 x at
+      // b/a = 1/64, 3 x at 1/50, <= 1.7 x for b/a >= 50.  Frozen at 4 x the worst = 256 x (2 x table row).
+      const ld tol = 256 * 2 * geodtab::exact_doc_m(f, Q);
+      std::unique_ptr<GeodesicExact> ge; std::unique_ptr<Geodesic> gx;
+      for (size_t li = 0; li < lats.size(); ++li) for (size_t ai = 0; ai < azis.size(); ++ai) {
+        if (!ctx.take()) continue;
+        if (!ge) { ge.reset(new GeodesicExact(a, f)); gx.reset(new Geodesic(a, f, true)); }
+        const double lat1 = lats[li], azi1 = azis[ai], lon1 = 10;
+        const double big = std::fmax(a, a * ba);
+        for (double a12 : arcs) {
+          Ctx::Case cs(ctx);
+          auto key = [&](const char* k) { return "ba" + fmt(ba) + "/la" + std::to_string(li) + "/az" + std::to_string(ai) + "/arc" + fmt(a12) + "/" + k; };
+          auto bad = [&](const char* kind, const std::string& m) { ctx.fail(key(kind), "b/a=" + fmt(ba) + " a=" + fx(a) + " lat1=" + fx(lat1) + " azi1=" + fx(azi1) + " a12=" + fmt(a12) + ": " + m, {{"kind", std::string(kind) + "@b/a=" + fmt(ba)}, {"ell", "b/a=" + fmt(ba)}}); };
+          struct R { double lat, lon, azi, s, a; } r[4];
+          // 0: GeodesicExact arc   1: GeodesicExact distance (s of 0)   2: exact=true arc   3: line form distance
+          r[0].a = ge->GenDirect(lat1, lon1, azi1, true, a12, MSK, r[0].lat, r[0].lon, r[0].azi, r[0].s, r[0].a, r[0].a, r[0].a, r[0].a); r[0].a = a12;
+          { double t; r[1].a = ge->GenDirect(lat1, lon1, azi1, false, r[0].s, MSK, r[1].lat, r[1].lon, r[1].azi, r[1].s, t, t, t, t); }
+          { double t; gx->GenDirect(lat1, lon1, azi1, true, a12, MSK, r[2].lat, r[2].lon, r[2].azi, r[2].s, t, t, t, t); r[2].a = a12; }
+          { double t; GeodesicLineExact l = ge->Line(lat1, lon1, azi1, MSK | GeodesicExact::DISTANCE_IN); r[3].a = l.GenPosition(false, r[0].s, MSK, r[3].lat, r[3].lon, r[3].azi, r[3].s, t, t, t, t); }
+          bool fin = true; for (auto& x : r) for (double v : {x.lat, x.lon, x.azi, x.s, x.a}) if (!std::isfinite(v)) fin = false;
+          if (!fin) { bad("nonfinite", "non-finite output"); continue; }
+          bool merid = std::fabs(std::sin(azi1 * Math::degree())) < 1e-9 || std::fabs(lat1) == 90;    // the side on which a pole is passed is undocumented
+          for (int j = 1; j < 4; ++j) {
+            double cl = std::cos(r[0].lat * Math::degree());
+            double dlon = std::remainder(r[j].lon - r[0].lon, 360.0);
+            if (merid) dlon = std::remainder(std::fabs(r[j].lon - lon1) - std::fabs(r[0].lon - lon1), 360.0);
+            double dpos = std::hypot((r[j].lat - r[0].lat) * Math::degree() * big, dlon * Math::degree() * big * cl);
+            double ds = std::fabs(r[j].s - r[0].s), da = std::fabs(r[j].a - a12) * Math::degree() * big;
+            const char* nm[] = {"", "arc-vs-distance", "exact-vs-exactmode", "gendirect-vs-line"};
+            ctx.worstf(std::string("ends.") + nm[j] + ".pos_over_tol", dpos / (double)tol, [&] { return key(nm[j]); });
+            if (!(dpos <= tol)) bad(nm[j], std::string(nm[j]) + ": points differ by " + fmt(dpos) + " m (tolerance " + mc::fmtl(tol) + ")");
+            if (!(ds <= tol)) bad(nm[j], std::string(nm[j]) + ": s12 differs by " + fmt(ds) + " m");
+            if ((j == 1 || j == 3) && !(da <= tol)) bad(nm[j], std::string(nm[j]) + ": distance-specified call returns a12 = " + fx(r[j].a) + " for the distance of arc " + fmt(a12));
+          }
+          if (ctx.want_sample()) ctx.sample("b/a=" + fmt(ba) + " lat1=" + fmt(lat1) + " azi1=" + fmt(azi1) + " a12=" + fmt(a12) + " -> s12=" + fmt(r[0].s));
+        }
+      }
+    }
+  }
   return ctx.finish();
 }
